@@ -533,6 +533,25 @@ Proof.
   intros Wa Wb Ta Tb Sa Sb E. apply preimage_injective; [apply (shallow_ok a)|apply (shallow_ok b)|]; assumption.
 Qed.
 
+(* objects alone: the sorted (key, child hash) list is determined by the bytes *)
+Lemma object_preimage_injective m m' :
+  Forall (fun kv => (N.of_nat (List.length (fst kv)) < 2 ^ 64)%N) m ->
+  Forall (fun kv => (N.of_nat (List.length (fst kv)) < 2 ^ 64)%N) m' ->
+  preimage (ShObj (sort_members (map (fun kv => (fst kv, hash (snd kv))) m))) =
+  preimage (ShObj (sort_members (map (fun kv => (fst kv, hash (snd kv))) m'))) ->
+  sort_members (map (fun kv => (fst kv, hash (snd kv))) m) =
+  sort_members (map (fun kv => (fst kv, hash (snd kv))) m').
+Proof.
+  intros F F' E.
+  assert (G : forall m0, Forall (fun kv => (N.of_nat (List.length (fst kv)) < 2 ^ 64)%N) m0 ->
+            sh_ok (ShObj (sort_members (map (fun kv => (fst kv, hash (snd kv))) m0)))).
+  { intros m0 F0. cbn [sh_ok]. unfold sort_members. eapply Permutation_Forall; [apply isort_perm|].
+    apply Forall_forall. intros kh Hin. apply in_map_iff in Hin as (kv & Hkv & Hin). subst kh.
+    rewrite Forall_forall in F0. split; cbn [fst snd]; [apply (F0 kv Hin)|apply hash_lt]. }
+  apply preimage_injective in E; [|apply G; exact F|apply G; exact F'].
+  congruence.
+Qed.
+
 (* ----------------------------- the former delimiter collision is gone *)
 Lemma collide_key_len h : key_len (collide_key h) = 12%N.
 Proof.
@@ -557,14 +576,18 @@ Lemma collide_preimage_differs v w sa sb :
   preimage sa <> preimage sb.
 Proof.
   unfold collide_left, collide_right. cbn [shallow_of map fst snd]. intros Ea Eb E.
-  injection Ea as Ea. injection Eb as Eb. subst sa sb.
+  assert (Sa : ShObj (sort_members [(bs "a", hash v); (bs "b", hash w)]) = sa) by congruence.
+  assert (Sb : ShObj (sort_members [(collide_key (hash v), hash w)]) = sb) by congruence.
+  clear Ea Eb. subst sa sb.
   apply preimage_injective in E.
   - apply (f_equal (fun s => match s with ShObj ms => length ms | _ => O end)) in E.
-    unfold sort_members in E. rewrite !isort_length in E. discriminate E.
+    cbv beta iota in E. unfold sort_members in E. rewrite !isort_length in E. discriminate E.
   - cbn [sh_ok]. apply sort_members_ok.
-    repeat constructor; cbn [fst snd]; try apply hash_lt; vm_compute; reflexivity.
+    apply Forall_cons; [|apply Forall_cons; [|apply Forall_nil]];
+      (split; cbn [fst snd]; [vm_compute; reflexivity|apply hash_lt]).
   - cbn [sh_ok]. apply sort_members_ok.
-    repeat constructor; cbn [fst snd]; [rewrite collide_key_len; reflexivity|apply hash_lt].
+    apply Forall_cons; [|apply Forall_nil].
+    split; cbn [fst snd]; [rewrite collide_key_len; reflexivity|apply hash_lt].
 Qed.
 
 (* the recorded witness, evaluated: the two hashes differ *)
